@@ -15,12 +15,20 @@ signature function are found through the call graph / by name, wrappers included
  D2a every published signature sits under the name of the parameter whose expression it was computed from
      (key and expression from the same item; sequences of names and signatures re-joined in the same order);
  D3a the class attribute signatures are computed from is a private copy taken when the expressions were compiled;
- D3b the function table an evaluator evaluates with is its own object: a shared table is never updated in place.
+ D3b the function table an evaluator evaluates with is its own object: a shared table is never updated in place;
+ D4  a declared sweep value reaches the evaluation as the number that was written (spec creation, value listing, sweep steps,
+     and - round 11 - the variable namespace handed to eval: not rebuilt through a conversion into floating point, be it
+     written in place or inside a helper that hands its argument back, unless the path tests for a floating-point class).
+
+Round 11: the normaliser is found by role (`find_normaliser`); the operator classes of the selecting test are resolved by
+value flow (`op_class_sources`: literal, module constant, closure local, parameter default + every call's argument); the
+dump function is recognised by what it is (`plain_dump_fn`: ast.dump, lambda, one-line def, functools.partial, named once);
+D1d also covers every function / class the signature function brings in besides the normaliser (`signature_closure`).
 """
 from __future__ import annotations
 
 import ast
-from typing import Dict, List, Optional, Set, Tuple
+from typing import Callable, Dict, List, Optional, Set, Tuple
 
 from ..cfg import CFG, edges_guaranteeing
 from ..engine import (
@@ -79,8 +87,227 @@ def find_isinstance_on_op(test: ast.AST) -> List[Tuple[str, List[ast.AST]]]:
     return out
 
 
+def _bindings(name: str, at: ast.AST, mod_tree: Optional[ast.AST]) -> Optional[List[ast.AST]]:
+    """What *name*, read at *at*, is bound to: right-hand sides / ``def`` nodes of the nearest enclosing scope that binds it
+    (None: a parameter, a loop variable or any other binding without one visible value)."""
+    scopes = [a for a in ancestors(at) if isinstance(a, FuncNode)]
+    if isinstance(at, FuncNode):
+        scopes.insert(0, at)
+    for f in scopes:
+        if name in _params(f):
+            return None
+        found: List[ast.AST] = [d for d in _defs_of(f, name)]
+        found += [n for n in ast.walk(f) if isinstance(n, FuncNode) and n is not f and n.name == name and next((a for a in ancestors(n) if isinstance(a, FuncNode + (ast.ClassDef, ast.Lambda))), None) is f]
+        other = any(isinstance(n, (ast.For, ast.comprehension, ast.withitem, ast.ExceptHandler, ast.Import, ast.ImportFrom, ast.ClassDef)) and (
+            (isinstance(n, (ast.For, ast.comprehension)) and any(isinstance(x, ast.Name) and x.id == name for x in ast.walk(n.target)))
+            or (isinstance(n, ast.withitem) and n.optional_vars is not None and any(isinstance(x, ast.Name) and x.id == name for x in ast.walk(n.optional_vars)))
+            or (isinstance(n, ast.ExceptHandler) and n.name == name)
+            or (isinstance(n, ast.ClassDef) and n.name == name)
+            or (isinstance(n, (ast.Import, ast.ImportFrom)) and any((al.asname or al.name.split(".")[0]) == name for al in n.names))
+        ) for n in walk_no_nested(f))
+        if found or other:
+            return None if other or any(d is None for d in found) else found
+    if mod_tree is not None:
+        found = []
+        for st in mod_tree.body:
+            if isinstance(st, FuncNode) and st.name == name:
+                found.append(st)
+            elif isinstance(st, ast.Assign) and any(isinstance(t, ast.Name) and t.id == name for t in st.targets):
+                found.append(st.value)
+            elif isinstance(st, ast.AnnAssign) and isinstance(st.target, ast.Name) and st.target.id == name and st.value is not None:
+                found.append(st.value)
+        return found or None
+    return None
+
+
+def _no_positions(call: ast.Call) -> bool:
+    """Keyword arguments of a call of ast.dump that leave it the position-free, field-annotated dump."""
+    for k in call.keywords:
+        if k.arg == "include_attributes" and isinstance(k.value, ast.Constant) and k.value.value is False:
+            continue
+        if k.arg == "annotate_fields" and isinstance(k.value, ast.Constant) and k.value.value is True:
+            continue
+        return False
+    return True
+
+
+def plain_dump_fn(e: Optional[ast.AST], at: ast.AST, mod_tree: Optional[ast.AST], depth: int = 0) -> bool:
+    """True when *e* (read at *at*) denotes the function ``t -> ast.dump(t, include_attributes=False)`` - whichever way it is
+    spelled: ``ast.dump`` itself, a lambda / one-line def around it, ``functools.partial`` of it, or a name bound once to one."""
+    if e is None or depth > 6:
+        return False
+    if isinstance(e, (ast.Attribute, ast.Name)) and dotted_name(e) == "ast.dump":
+        return True
+    if isinstance(e, ast.Lambda):
+        a = e.args
+        if len(a.args) != 1 or a.vararg or a.kwarg or a.kwonlyargs or a.posonlyargs:
+            return False
+        arg = plain_dump_arg(e.body, e, mod_tree, depth + 1)
+        return isinstance(arg, ast.Name) and arg.id == a.args[0].arg
+    if isinstance(e, FuncNode):
+        a = e.args
+        body = [st for st in e.body if not (isinstance(st, ast.Expr) and isinstance(st.value, ast.Constant))]
+        if len(a.args) + len(a.posonlyargs) != 1 or a.vararg or a.kwarg or a.kwonlyargs or e.decorator_list or len(body) != 1 or not isinstance(body[0], ast.Return):
+            return False
+        arg = plain_dump_arg(body[0].value, body[0], mod_tree, depth + 1)
+        return isinstance(arg, ast.Name) and arg.id == (a.posonlyargs + a.args)[0].arg
+    if isinstance(e, ast.Call) and call_attr(e) == "partial" and len(e.args) == 1:
+        return plain_dump_fn(e.args[0], at, mod_tree, depth + 1) and _no_positions(e)
+    if isinstance(e, ast.Call) and call_attr(e) == "cast" and len(e.args) == 2:
+        return plain_dump_fn(e.args[1], at, mod_tree, depth + 1)
+    if isinstance(e, ast.Name):
+        b = _bindings(e.id, at, mod_tree)
+        return bool(b) and len(b) == 1 and plain_dump_fn(b[0], b[0] if isinstance(b[0], FuncNode) else (parent(b[0]) or at), mod_tree, depth + 1)
+    return False
+
+
+def plain_dump_arg(call: Optional[ast.AST], at: ast.AST, mod_tree: Optional[ast.AST], depth: int = 0) -> Optional[ast.AST]:
+    """For a call that computes the position-free dump of a tree: the expression of the tree (else None)."""
+    if not isinstance(call, ast.Call) or len(call.args) != 1 or isinstance(call.args[0], ast.Starred):
+        return None
+    if not plain_dump_fn(call.func, at, mod_tree, depth):
+        return None
+    if not _no_positions(call):
+        return None
+    return call.args[0]
+
+
+def op_class_sources(t: ast.AST, at: ast.AST, root: ast.AST, depth: int = 0) -> List[Tuple[ast.AST, ast.AST]]:
+    """Every class expression the second argument *t* of an ``isinstance`` test (read at *at*, inside function *root*) can
+    stand for, with the expression it was written in: a tuple in place, a module-level constant, a local bound to one, or a
+    parameter of a function nested in *root* - then its default and the argument of every call of that function in *root*.
+    Expressions that cannot be resolved are returned as they are."""
+    if depth > 6:
+        return [(t, t)]
+    if isinstance(t, (ast.Tuple, ast.List, ast.Set)):
+        out: List[Tuple[ast.AST, ast.AST]] = []
+        for e in t.elts:
+            e = e.value if isinstance(e, ast.Starred) else e
+            if isinstance(e, ast.Attribute):
+                out.append((e, t))
+            else:
+                out.extend(op_class_sources(e, at, root, depth + 1))
+        return out
+    if isinstance(t, ast.BinOp) and isinstance(t.op, ast.Add):
+        return op_class_sources(t.left, at, root, depth + 1) + op_class_sources(t.right, at, root, depth + 1)
+    if isinstance(t, ast.Name):
+        scopes = [a for a in ancestors(at) if isinstance(a, FuncNode)]
+        for f in scopes:
+            if t.id in _params(f):
+                out = []
+                a = f.args
+                pos = a.posonlyargs + a.args
+                names = [x.arg for x in pos]
+                dflt = None
+                if t.id in names:
+                    i = names.index(t.id) - (len(pos) - len(a.defaults))
+                    dflt = a.defaults[i] if i >= 0 else None
+                elif t.id in [x.arg for x in a.kwonlyargs]:
+                    dflt = a.kw_defaults[[x.arg for x in a.kwonlyargs].index(t.id)]
+                else:
+                    return [(t, t)]
+                if dflt is not None:
+                    out.extend(op_class_sources(dflt, f, root, depth + 1))
+                for c in ast.walk(root):
+                    if not (isinstance(c, ast.Call) and isinstance(c.func, ast.Name) and c.func.id == f.name):
+                        continue
+                    if any(isinstance(x, ast.Starred) for x in c.args) or any(k.arg is None for k in c.keywords):
+                        out.append((c, c))
+                        continue
+                    arg = kwarg(c, t.id)
+                    if arg is None and t.id in names and names.index(t.id) < len(c.args):
+                        arg = c.args[names.index(t.id)]
+                    if arg is None:
+                        continue  # the default
+                    if isinstance(arg, ast.Name) and arg.id == t.id and any(x is f for x in ancestors(c)):
+                        continue  # handed on unchanged by the function itself
+                    out.extend(op_class_sources(arg, c, root, depth + 1))
+                # the function handed around as a value (map(norm, ..)) is called with the default
+                return out or [(t, t)]
+            defs = _defs_of(f, t.id)
+            if defs:
+                if any(d is None for d in defs):
+                    return [(t, t)]
+                out = []
+                for d in defs:
+                    out.extend(op_class_sources(d, parent(d) or at, root, depth + 1))
+                return out
+        if t.id in MODULE_TUPLES:
+            return [(e, t) if isinstance(e, ast.Attribute) else (e, e) for e in MODULE_TUPLES[t.id]]
+    return [(t, t)]
+
+
+NODE_FIELDS = ("value", "id", "func", "op", "ops", "left", "right", "operand", "comparators", "args", "keywords", "elts", "values", "test", "body", "orelse")
+
+
+def _store_targets(st: ast.AST) -> List[ast.AST]:
+    """Every single target a store statement writes (tuple / starred targets opened)."""
+    tg = st.targets if isinstance(st, ast.Assign) else [st.target]
+    out: List[ast.AST] = []
+    stack = list(tg)
+    while stack:
+        t = stack.pop()
+        if isinstance(t, (ast.Tuple, ast.List)):
+            stack.extend(t.elts)
+        elif isinstance(t, ast.Starred):
+            stack.append(t.value)
+        else:
+            out.append(t)
+    return out
+
+
+def signature_closure(repo: Repo, entry: str, exclude: Tuple[ast.AST, ...] = ()) -> List[ast.AST]:
+    """Functions of the signature module, other than the entry point and *exclude*, that the entry point brings in: module-level
+    functions it names (directly or through one of them), and every method of a module-level class it names."""
+    tree = repo.module(SEM).tree
+    top: Dict[str, ast.AST] = {st.name: st for st in tree.body if isinstance(st, (FuncNode, ast.ClassDef))}
+    start = top.get(entry)
+    if start is None:
+        return []
+    seen: List[ast.AST] = [start]
+    todo = [start]
+    while todo:
+        cur = todo.pop()
+        if any(cur is x for x in exclude):
+            continue
+        for n in ast.walk(cur):
+            if isinstance(n, ast.Name) and isinstance(n.ctx, ast.Load) and n.id in top and not any(top[n.id] is x for x in seen):
+                seen.append(top[n.id])
+                todo.append(top[n.id])
+    out: List[ast.AST] = []
+    for x in seen[1:]:
+        if any(x is e for e in exclude):
+            continue
+        if isinstance(x, ast.ClassDef):
+            out.extend(m for m in ast.walk(x) if isinstance(m, FuncNode))
+        else:
+            out.append(x)
+    return out
+
+
+def find_normaliser(repo: Repo) -> ast.AST:
+    """The normaliser, by role: the module-level function the public signature function calls (directly or through other
+    module-level functions) that tests the operator class of a node (``isinstance(<x>.op, ..)``)."""
+    tree = repo.module(SEM).tree
+    top: Dict[str, ast.AST] = {st.name: st for st in tree.body if isinstance(st, FuncNode)}
+    start = top.get("normalize_expression_sig_v1")
+    if start is None:
+        raise AnalysisError(f"anchor function vanished: {SEM}:normalize_expression_sig_v1")
+    seen, todo = [start], [start]
+    while todo:
+        cur = todo.pop(0)
+        if cur is not start and any(find_isinstance_on_op(n) for n in ast.walk(cur) if isinstance(n, ast.Call) and call_attr(n) == "isinstance"):
+            return cur
+        for n in ast.walk(cur):
+            if isinstance(n, ast.Name) and isinstance(n.ctx, ast.Load) and n.id in top and not any(top[n.id] is x for x in seen):
+                seen.append(top[n.id])
+                todo.append(top[n.id])
+    return repo.func(SEM, "_dump_ast_commutative")
+
+
 def run(repo: Repo, R: Report) -> None:
-    fn = repo.func(SEM, "_dump_ast_commutative")
+    mod_tree = repo.module(SEM).tree
+    fn = find_normaliser(repo)
     MODULE_TUPLES.clear()
     for st in repo.module(SEM).tree.body:
         if isinstance(st, (ast.Assign, ast.AnnAssign)) and isinstance(getattr(st, "value", None), (ast.Tuple, ast.Set, ast.List)):
@@ -93,7 +320,11 @@ def run(repo: Repo, R: Report) -> None:
     )
     R.undecided("numeric evaluation itself (nothing is evaluated); non-numeric operands of + and * (outside the statement's scope)")
 
-    inner_norm = next((n for n in ast.walk(fn) if isinstance(n, FuncNode) and n is not fn and n.name == "norm"), None)
+    # the recursive tree walk: the nested function that tests the operator of its own first parameter
+    inner_norm = next((n for n in ast.walk(fn) if isinstance(n, FuncNode) and n is not fn and n.args.args
+                       and any(v == n.args.args[0].arg for t in walk_no_nested(n) if isinstance(t, ast.If) for v, _c in find_isinstance_on_op(t.test))), None)
+    if inner_norm is None:
+        inner_norm = next((n for n in ast.walk(fn) if isinstance(n, FuncNode) and n is not fn and n.name == "norm"), None)
     if inner_norm is None:
         # normaliser may have been flattened into the outer function
         inner_norm = fn
@@ -103,16 +334,29 @@ def run(repo: Repo, R: Report) -> None:
     r_ops = R.rule("C12-D1a-ops", "the flatten/sort path is selected for ast.Add and ast.Mult only", 1)
     select_if: Optional[ast.If] = None
     for st in walk_no_nested(inner_norm):
-        if isinstance(st, ast.If):
-            hits = [h for h in find_isinstance_on_op(st.test) if h[0] == nparam]
-            if hits and any(isinstance(c, ast.Attribute) for c in hits[0][1]):
-                select_if = st
-                classes = hits[0][1]
-                names = {dotted_name(c) for c in classes}
-                bad = sorted(n for n in names if n is None or n.split(".")[-1] not in COMMUTATIVE)
-                R.check(not bad, r_ops, SEM, qualname_of(inner_norm), norm(st),
-                        f"operators treated as commutative/associative include {bad}", st.lineno)
-                break
+        if not isinstance(st, ast.If):
+            continue
+        tests = [c for c in ast.walk(st.test) if isinstance(c, ast.Call) and call_attr(c) == "isinstance" and len(c.args) == 2 and dotted_name(c.args[0]) == f"{nparam}.op"]
+        if not tests:
+            continue
+        # every value the class argument of the test can take: written in place, a module constant, a local, or a parameter
+        # of the normaliser (its default and what each call passes for it)
+        srcs = op_class_sources(tests[0].args[1], tests[0], fn)
+        if not any(isinstance(c, ast.Attribute) for c, _o in srcs):
+            continue
+        select_if = st
+        by_origin: Dict[int, Tuple[ast.AST, List[ast.AST]]] = {}
+        for c, origin in srcs:
+            by_origin.setdefault(id(origin), (origin, []))[1].append(c)
+        for origin, classes in by_origin.values():
+            names = [dotted_name(c) for c in classes]
+            if any(n is None for n in names):
+                raise AnalysisError(f"_dump_ast_commutative: operator classes `{norm(origin)}` of the selecting test cannot be resolved")
+            bad = sorted({n for n in names if n.split(".")[-1] not in COMMUTATIVE})
+            where = st if any(origin is x for x in ast.walk(st.test)) else stmt_of(origin)
+            R.check(not bad, r_ops, SEM, qualname_of(inner_norm), norm(where),
+                    f"operators treated as commutative/associative include {bad}: the flatten/sort/refold path re-orders and re-associates their operands, so expressions with different values get one signature", getattr(origin, "lineno", st.lineno))
+        break
     if select_if is None:
         raise AnalysisError("_dump_ast_commutative: commutative-operator selecting test not found")
     # every other isinstance(.op, literal classes) in the function must also stay within +,*
@@ -283,14 +527,8 @@ def run(repo: Repo, R: Report) -> None:
         return None, "unknown"
 
     def key_ok(key: Optional[ast.AST]) -> bool:
-        if not isinstance(key, ast.Lambda) or len(key.args.args) != 1:
-            return False
-        p = key.args.args[0].arg
-        b = key.body
-        if not (isinstance(b, ast.Call) and call_name(b) == "ast.dump" and b.args and isinstance(b.args[0], ast.Name) and b.args[0].id == p):
-            return False
-        ia = kwarg(b, "include_attributes")
-        return ia is None or (isinstance(ia, ast.Constant) and ia.value is False)
+        # the key denotes t -> ast.dump(t, include_attributes=False), however it is spelled (lambda, partial, named local)
+        return key is not None and plain_dump_fn(key, parent(key) or inner_norm, mod_tree)
 
     fold_var = None
     for st in branch:
@@ -387,9 +625,24 @@ def run(repo: Repo, R: Report) -> None:
                 ok = inside and d == "ast.BinOp"
                 R.check(ok, r_else, SEM, qualname_of(fn), norm(n), "the normaliser constructs/rewrites nodes other than the refolded +/* chain", n.lineno)
         if isinstance(n, ast.Assign):
-            for t in n.targets:
-                if isinstance(t, ast.Attribute) and t.attr in ("value", "id", "func", "op", "ops", "left", "right", "operand", "comparators", "args"):
+            for t in _store_targets(n):
+                if isinstance(t, ast.Attribute) and t.attr in NODE_FIELDS:
                     R.violation(r_else, SEM, qualname_of(fn), norm(n), f"explicit rewrite of .{t.attr} in the normaliser", n.lineno)
+    # the same holds for every other function / class of the module that the signature function brings in (a tree rewritten
+    # before or after the normaliser is part of the normal form): found through the names it refers to, methods included
+    for helper in signature_closure(repo, "normalize_expression_sig_v1", exclude=(fn,)):
+        for n in ast.walk(helper):
+            if isinstance(n, ast.Call):
+                nm = call_attr(n)
+                d = call_name(n)
+                if nm in ("sorted", "sort", "reversed", "reverse", "set", "frozenset", "shuffle"):
+                    R.violation(r_else, SEM, qualname_of(helper), norm(stmt_of(n)), f"`{nm}()` in code the signature function runs on the expression tree besides the +/* normaliser: operands of a construct that is not known to be commutative and associative (comparison chains, calls, non-commutative operators) are reordered or merged", n.lineno)
+                elif d and d.startswith("ast.") and d[4:5].isupper():
+                    R.violation(r_else, SEM, qualname_of(helper), norm(stmt_of(n)), "nodes are constructed / rewritten outside the +/* normaliser on the way to the signature", n.lineno)
+            elif isinstance(n, (ast.Assign, ast.AugAssign, ast.AnnAssign)):
+                for t in _store_targets(n):
+                    if isinstance(t, ast.Attribute) and t.attr in NODE_FIELDS:
+                        R.violation(r_else, SEM, qualname_of(helper), norm(n), f"explicit rewrite of .{t.attr} of a node on the way to the signature", n.lineno)
     # generic rebuild loop: for field, value in ast.iter_fields(n): setattr(n, field, norm(value)) / list comp over value in order
     gen_loops = [n for n in ast.walk(inner_norm) if isinstance(n, ast.For) and isinstance(n.iter, ast.Call) and call_name(n.iter) == "ast.iter_fields"]
     if not gen_loops:
@@ -409,13 +662,11 @@ def run(repo: Repo, R: Report) -> None:
     rets = [n for n in walk_no_nested(fn) if isinstance(n, ast.Return) and n.value is not None]
     for r in rets:
         v = r.value
-        ok = isinstance(v, ast.Call) and call_name(v) == "ast.dump" and len(v.args) == 1 and isinstance(v.args[0], ast.Name)
-        if ok:
-            ia = kwarg(v, "include_attributes")
-            ok = ia is None or (isinstance(ia, ast.Constant) and ia.value is False)
+        dumped = plain_dump_arg(v, r, mod_tree)
+        ok = isinstance(dumped, ast.Name)
         if ok:
             # the dumped name = norm(<expr built from the parameter>)
-            nm = v.args[0].id
+            nm = dumped.id
             defs = [a for a in walk_no_nested(fn) if isinstance(a, ast.Assign) and any(isinstance(t, ast.Name) and t.id == nm for t in a.targets)]
             p0 = fn.args.args[0].arg
             ok = len(defs) == 1 and isinstance(defs[0].value, ast.Call) and call_attr(defs[0].value) == inner_norm.name and p0 in {x.id for x in ast.walk(defs[0].value) if isinstance(x, ast.Name)} \
@@ -428,7 +679,7 @@ def run(repo: Repo, R: Report) -> None:
     parse = [c for c in calls_in(sigfn) if call_name(c) == "ast.parse"]
     ok = len(parse) == 1 and parse[0].args and isinstance(parse[0].args[0], ast.Name) and parse[0].args[0].id == p0
     R.check(ok, r_sig, SEM, "normalize_expression_sig_v1", norm(parse[0]) if parse else "ast.parse(expr)", "the signature is not computed from the expression text as given", sigfn.lineno)
-    dumps = [c for c in calls_in(sigfn) if call_attr(c) == "_dump_ast_commutative"]
+    dumps = [c for c in calls_in(sigfn) if call_attr(c) == fn.name]
     ok = False
     tree_names: set = set()
     if len(dumps) == 1 and dumps[0].args:
@@ -439,7 +690,7 @@ def run(repo: Repo, R: Report) -> None:
         a = dumps[0].args[0]
         a = a.value if isinstance(a, ast.Attribute) and a.attr == "body" else a
         ok = a in parse
-    R.check(ok, r_sig, SEM, "normalize_expression_sig_v1", norm(dumps[0]) if dumps else "_dump_ast_commutative(tree.body)", "the normaliser is not applied to the whole parsed expression", sigfn.lineno)
+    R.check(ok, r_sig, SEM, "normalize_expression_sig_v1", norm(dumps[0]) if dumps else f"{fn.name}(tree.body)", "the normaliser is not applied to the whole parsed expression", sigfn.lineno)
     # the parsed tree reaches the normaliser untouched: its only uses are its definition and the normaliser argument
     if len(dumps) == 1:
         allowed = {id(x) for x in ast.walk(dumps[0])}
@@ -1088,6 +1339,7 @@ def _param_roots(fn: ast.AST, e: Optional[ast.AST], depth: int = 0) -> Set[str]:
 
 
 MAKERS: List[Tuple[object, ast.AST]] = []
+EVAL_SITES: List[Tuple[object, ast.AST, ast.Call]] = []  # (module, evaluating function, eval call): filled by evaluator_rule
 
 
 def snapshot_rule(repo: Repo, R: Report, src_attrs: Set[str]) -> None:
@@ -1163,13 +1415,18 @@ def evaluator_rule(repo: Repo, R: Report) -> None:
                     sites.append((m, f, c))
     if not sites:
         raise AnalysisError("evaluation site (eval with an explicit globals table) not reachable from the sweep factory")
+    EVAL_SITES.clear()
+    EVAL_SITES.extend(sites)
     tables: List[Tuple[object, ast.AST, ast.Call, ast.AST]] = []
     for m, f, c in sites:
         # namespaces of the evaluation, in either position (names are looked up in both): the one that is a parameter of the
         # evaluating function is the variable assignment of this call; every other one is a function table
         spaces = list(c.args[1:3]) + [k.value for k in c.keywords if k.arg in ("globals", "locals")]
+        # (a namespace computed from the parameters of the evaluating function is still the variable assignment: what may
+        # happen to its values on the way is decided by C12-D4)
         own = [g for g in spaces if not (isinstance(g, ast.Name) and g.id in _params(f) and not _defs_of(f, g.id))
-               and not (isinstance(g, ast.Constant) and g.value is None)]
+               and not (isinstance(g, ast.Constant) and g.value is None)
+               and not (_param_roots(f, g) - {"self", "cls"})]
         if not own:
             raise AnalysisError(f"{m.rel}:{qualname_of(f)}: `{norm(c)}` evaluates without a function table of its own (shape not understood)")
         tables.extend((m, f, c, g) for g in own)
@@ -1347,8 +1604,111 @@ def _conv_name(f: ast.AST) -> Optional[str]:
     return d.split(".")[-1] if d else None
 
 
-def _inexact_conversions(fn: ast.AST) -> List[Tuple[ast.AST, ast.AST, str]]:
-    """(expression, converted collection, conversion) for every element-wise conversion of a collection in *fn*."""
+FLOAT_ONLY = {"float", "floating", "float64", "float32", "float16", "float_", "double", "single", "half"}
+
+
+def _is_float_atom(var: str):
+    """Atom for cfg.edges_guaranteeing: ``isinstance(var, <floating-point classes only>)`` / ``type(var) is float``."""
+    def atom(e: ast.AST) -> Optional[bool]:
+        if isinstance(e, ast.Call) and call_attr(e) == "isinstance" and len(e.args) == 2 and dotted_name(e.args[0]) == var:
+            cl = _class_exprs(e.args[1])
+            names = [dotted_name(c) for c in cl]
+            if names and all(n is not None and n.split(".")[-1] in FLOAT_ONLY for n in names):
+                return True
+        if isinstance(e, ast.Compare) and len(e.ops) == 1 and isinstance(e.ops[0], (ast.Is, ast.Eq)):
+            l, r = e.left, e.comparators[0]
+            for a, b in ((l, r), (r, l)):
+                if isinstance(a, ast.Call) and call_attr(a) == "type" and len(a.args) == 1 and dotted_name(a.args[0]) == var and (dotted_name(b) or "").split(".")[-1] in FLOAT_ONLY:
+                    return True
+        return None
+    return atom
+
+
+def lossy_helper(fn: ast.AST) -> Optional[Tuple[ast.Call, str]]:
+    """*fn* hands its argument back; (conversion call, its name) when on some path the argument comes back converted into
+    floating point without a test on that path that it already is a floating-point number (so integers / rationals are hit)."""
+    from ..cfg import returns_only_through
+
+    rets = [r.value for r in walk_no_nested(fn) if isinstance(r, ast.Return) and r.value is not None]
+    if not rets:
+        return None
+    g = None
+    for c in walk_no_nested(fn):
+        if not (isinstance(c, ast.Call) and _conv_name(c.func) in INEXACT_CONV and len(c.args) == 1 and isinstance(c.args[0], ast.Name)):
+            continue
+        var = c.args[0].id
+        if var not in _params(fn) or _defs_of(fn, var):
+            continue
+        if _flows_into(fn, c, rets) is None:
+            continue
+        atom = _is_float_atom(var)
+        guarded = False
+        cur = c
+        for a in ancestors(c):
+            if a is fn:
+                break
+            if isinstance(a, ast.IfExp):
+                e = edges_guaranteeing(a.test, atom)
+                if (cur is a.body and "T" in e) or (cur is a.orelse and "F" in e):
+                    guarded = True
+            cur = a
+        if guarded:
+            continue
+        g = g or CFG(fn)
+        st = stmt_of(c)
+        ids = [n.id for n in g.nodes if n.ast is st]
+        if not ids:
+            return c, f"{_conv_name(c.func)}()"
+        holds, _path, _n = returns_only_through(g, atom, targets=ids)
+        if not holds:
+            return c, f"{_conv_name(c.func)}()"
+    return None
+
+
+def make_conv_of(repo: Repo, m) -> "Callable[[ast.AST], Optional[str]]":
+    """Resolver for `_inexact_conversions`: what conversion into floating point the function expression *f* applies to its
+    argument - a conversion itself, or a function of the package that hands its argument back converted (`lossy_helper`)."""
+    cache: Dict[int, Optional[str]] = {}
+
+    def conv_of(f: ast.AST) -> Optional[str]:
+        nm = _conv_name(f)
+        if nm in INEXACT_CONV:
+            return f"{nm}()"
+        if nm is None:
+            return None
+        targets: List[Tuple[object, ast.AST]] = []
+        r = None
+        try:
+            r = repo.resolve_name(m, f, f)
+        except Exception:
+            r = None
+        if r is not None and isinstance(r[1], FuncNode):
+            targets.append(r)
+        elif isinstance(f, ast.Name) and isinstance(m.defs.get(f.id), FuncNode):
+            targets.append((m, m.defs[f.id]))
+        elif isinstance(f, ast.Attribute) and isinstance(f.value, ast.Name):
+            # self._helper / cls._helper / Class._helper: the methods of that name in this module
+            targets.extend((m, d) for q, d in m.defs.items() if isinstance(d, FuncNode) and q.endswith("." + f.attr) and (f.value.id in ("self", "cls") or q.split(".")[-2:-1] == [f.value.id]))
+        for tm, tf in targets:
+            if id(tf) not in cache:
+                hit = lossy_helper(tf)
+                cache[id(tf)] = f"{tf.name}() -> {hit[1]}" if hit else None
+            if cache[id(tf)]:
+                return cache[id(tf)]
+        return None
+
+    return conv_of
+
+
+def _direct_conv(f: ast.AST) -> Optional[str]:
+    nm = _conv_name(f)
+    return f"{nm}()" if nm in INEXACT_CONV else None
+
+
+def _inexact_conversions(fn: ast.AST, conv_of=None) -> List[Tuple[ast.AST, ast.AST, str]]:
+    """(expression, converted collection, conversion) for every element-wise conversion of a collection in *fn*.
+    *conv_of* tells which function expressions convert into floating point (default: the conversions themselves)."""
+    conv_of = conv_of or _direct_conv
     out: List[Tuple[ast.AST, ast.AST, str]] = []
     for n in ast.walk(fn):
         if isinstance(n, (ast.ListComp, ast.GeneratorExp, ast.SetComp, ast.DictComp)):
@@ -1357,7 +1717,7 @@ def _inexact_conversions(fn: ast.AST) -> List[Tuple[ast.AST, ast.AST, str]]:
                 tnames = {x.id for x in ast.walk(g.target) if isinstance(x, ast.Name)}
                 for el in elts:
                     for c in ast.walk(el):
-                        if isinstance(c, ast.Call) and _conv_name(c.func) in INEXACT_CONV and c.args and tnames & {x.id for a in c.args for x in ast.walk(a) if isinstance(x, ast.Name)}:
+                        if isinstance(c, ast.Call) and c.args and tnames & {x.id for a in c.args for x in ast.walk(a) if isinstance(x, ast.Name)} and conv_of(c.func):
                             coll = g.iter
                             # {v: conv(M[v][i]) for v in M}: what is converted is an element of M
                             for a in c.args:
@@ -1365,11 +1725,11 @@ def _inexact_conversions(fn: ast.AST) -> List[Tuple[ast.AST, ast.AST, str]]:
                                     if isinstance(s, ast.Subscript) and not (isinstance(s.value, ast.Name) and s.value.id in tnames):
                                         coll = s.value
                                         break
-                            out.append((n, coll, f"{_conv_name(c.func)}()"))
+                            out.append((n, coll, conv_of(c.func)))
         elif isinstance(n, ast.Call):
             nm = call_attr(n)
-            if nm == "map" and len(n.args) >= 2 and _conv_name(n.args[0]) in INEXACT_CONV:
-                out.append((n, n.args[1], f"{_conv_name(n.args[0])}()"))
+            if nm == "map" and len(n.args) >= 2 and conv_of(n.args[0]):
+                out.append((n, n.args[1], conv_of(n.args[0])))
             elif nm in ARRAY_CONV and isinstance(n.func, ast.Attribute):
                 coll = n.func.value if nm == "astype" else (n.args[0] if n.args else None)
                 if coll is not None:
@@ -1514,7 +1874,7 @@ def exact_values_rule(repo: Repo, R: Report) -> None:
             elif isinstance(n, ast.Assign) and any(isinstance(t, ast.Subscript) for t in n.targets):
                 sinks.append(n.value)
         bad = None
-        for expr, coll, conv in _inexact_conversions(nf):
+        for expr, coll, conv in _inexact_conversions(nf, make_conv_of(repo, m)):
             if _declared(nf, coll) and _flows_into(nf, expr, sinks) is not None:
                 bad = (expr, coll, conv)
                 break
@@ -1552,12 +1912,29 @@ def exact_values_rule(repo: Repo, R: Report) -> None:
             elif isinstance(n, ast.Call):
                 sinks.extend(k.value for k in n.keywords if k.arg is None)
         bad = None
-        for expr, coll, conv in _inexact_conversions(nf):
+        for expr, coll, conv in _inexact_conversions(nf, make_conv_of(repo, m)):
             if _declared(nf, coll) and _flows_into(nf, expr, sinks) is not None:
                 bad = (expr, coll, conv)
                 break
         R.check(bad is None, r, m.rel, qualname_of(f0), norm(stmt_of(bad[0])) if bad else "listed values handed on as they are",
                 what.format(coll=_u(bad[1]), conv=bad[2]) if bad else "", bad[0].lineno if bad else f0.lineno)
+    # where the values of one sweep step meet the compiled expression: the variable namespace of the evaluation is the
+    # assignment the evaluating function was called with - not a copy whose numbers were converted into floating point
+    for m, f, c in EVAL_SITES:
+        repo.module(m.rel)
+        nf = nform(m, f)
+        evs = [x for x in calls_in(nf) if call_name(x) in ("eval", "exec") and len(x.args) >= 2] or [c]
+        conv_of = make_conv_of(repo, m)
+        for ev in evs:
+            spaces = list(ev.args[1:3]) + [k.value for k in ev.keywords if k.arg in ("globals", "locals")]
+            bad = None
+            for expr, coll, conv in _inexact_conversions(nf, conv_of):
+                if _declared(nf, coll) and _flows_into(nf, expr, spaces) is not None:
+                    bad = (expr, coll, conv)
+                    break
+            R.check(bad is None, r, m.rel, qualname_of(f), norm(stmt_of(bad[0])) if bad else f"variable values reach `{norm(ev)}` as given",
+                    ("the variable assignment of the evaluation is rebuilt with its numbers passed through " + bad[2] + ": integers (numpy integers, values beyond 2**53) and rationals are evaluated in floating point, where + and * are not associative, so two expressions with the same signature (`x + y + z`, `x + (z + y)`) deliver different values") if bad else "",
+                    bad[0].lineno if bad else ev.lineno)
     # where spec objects are built from a declaration
     n_sites = 0
     for m, qn, f in repo.all_functions():
@@ -1576,7 +1953,7 @@ def exact_values_rule(repo: Repo, R: Report) -> None:
         repo.module(m.rel)
         nf = nform(m, f)
         sites = [c for c in calls_in(nf) if call_attr(c) in spec_classes]
-        convs = [(e, coll, conv) for e, coll, conv in _inexact_conversions(nf) if _declared(nf, coll)]
+        convs = [(e, coll, conv) for e, coll, conv in _inexact_conversions(nf, make_conv_of(repo, m)) if _declared(nf, coll)]
         for c in sites:
             cname = call_attr(c)
             fields = class_fields(spec_classes[cname][1])
